@@ -217,6 +217,9 @@ fn mismatches(cx: &mut Cx, issuer: NodeId, holder: NodeId, key: Arc<KeyMat>, req
     { let mut r = req.clone(); r.bases = key.bases2.0[..n].to_vec(); deliver_request(cx, issuer, key.clone(), r, "misroute_bases".into(), false); }
     if let Some(other) = other_pool_key(key.idx) { let mut r = req.clone(); r.pk = other.pk.clone(); deliver_request(cx, issuer, key.clone(), r, "misroute_key".into(), false); }
     { let mut r = req.clone(); r.c_value += 1; deliver_request(cx, issuer, key.clone(), r, "commitment_value:+1".into(), false); }
+    // the same residues, other integers: C + N, C_trusted + N_trusted
+    { let mut r = req.clone(); r.c_value += &key.pk.N; deliver_request(cx, issuer, key.clone(), r, "commitment_value:+N".into(), false); }
+    if let (Some(ct), Some(tp)) = (&req.ct_value, &req.tp_cpk) { let mut r = req.clone(); r.ct_value = Some(Integer::from(ct + &tp.N)); deliver_request(cx, issuer, key.clone(), r, "trusted_commitment_value:+N".into(), false); }
     if trusted {
         // the link proof between C and the trusted commitment removed from the frame, while the
         // issuer still holds the trusted commitment
@@ -306,6 +309,13 @@ fn mismatches(cx: &mut Cx, issuer: NodeId, holder: NodeId, key: Arc<KeyMat>, req
                 let mut r = req.clone(); r.zk_json = v.to_string();
                 deliver_request(cx, issuer, key.clone(), r, format!("forged_subproof_array_shortened:{name}:{how}"), false);
             }
+        }
+        // ... and LENGTHENED: a copy of the last entry appended (surplus entries nobody reads)
+        for (name, path) in [("proofs_commited_mi", "/CL03/proofs_commited_mi"), ("range_proofs_mi", "/CL03/range_proofs_mi"), ("proof_C_Ctrusted.d", "/CL03/proof_C_Ctrusted/d")] {
+            let mut v = v0.clone();
+            if let Some(serde_json::Value::Array(a)) = v.pointer_mut(path) { if let Some(last) = a.last().cloned() { a.push(last); } else { continue; } } else { continue; }
+            let mut r = req.clone(); r.zk_json = v.to_string();
+            deliver_request(cx, issuer, key.clone(), r, format!("forged_subproof_array_lengthened:{name}"), false);
         }
         // both arrays shortened consistently
         let mut v = v0.clone();
